@@ -931,6 +931,11 @@ fn explore(r: &Report, cx: &Ctx, xs: &[Vec<Sym>], memo: &Memo, budget_frac: f64)
                 }
                 // the order-freedom oracle in THIS state
                 oracle(cx, w, xs, memo, path, &mut out);
+                for v in out.viol.iter_mut() {
+                    if v.2.is_null() {
+                        v.2 = json!({"config": cx.cfg.name, "path": path, "in": "permutation-oracle"});
+                    }
+                }
                 let mut succ = Vec::new();
                 if expand {
                     for op in &ops {
